@@ -34,9 +34,10 @@ const (
 type c33sc struct {
 	action string
 	at     time.Duration
+	ka     time.Duration
 }
 
-func (sc c33sc) name() string { return fmt.Sprintf("%s@%v", sc.action, sc.at) }
+func (sc c33sc) name() string { return fmt.Sprintf("%s@%v/ka=%v", sc.action, sc.at, sc.ka) }
 
 func c33cfg(keepAlive time.Duration) cl.Config {
 	cfg := c17cfg()
@@ -219,10 +220,17 @@ func runC33(t *testing.T, sc c33sc, keepAlive time.Duration, prefix []int) explo
 
 func c33scenarios() []c33sc {
 	var out []c33sc
-	out = append(out, c33sc{"none", 0})
-	for _, a := range []string{"Sleep(3s)", "Sleep(6s)", "Disconnect", "Publish q1", "Ping"} {
-		for x := 0; x <= 9; x++ {
-			out = append(out, c33sc{a, time.Duration(x)*time.Second + 500*time.Millisecond})
+	// KeepAlive 4 s: longer than a whole PINGREQ exchange; 2 s: a tick can come due while the previous ping is still in flight
+	for _, ka := range []time.Duration{4 * time.Second, 2 * time.Second} {
+		out = append(out, c33sc{"none", 0, ka})
+		last := 9
+		if ka == 2*time.Second {
+			last = 5
+		}
+		for _, a := range []string{"Sleep(3s)", "Sleep(6s)", "Disconnect", "Publish q1", "Ping"} {
+			for x := 0; x <= last; x++ {
+				out = append(out, c33sc{a, time.Duration(x)*time.Second + 500*time.Millisecond, ka})
+			}
 		}
 	}
 	return out
@@ -232,7 +240,7 @@ func TestC33(t *testing.T) {
 	var scs []explore.Scenario
 	for _, sc := range c33scenarios() {
 		sc := sc
-		scs = append(scs, explore.Scenario{Name: sc.name(), Run: func(p []int) explore.ExecResult { return runC33(t, sc, c33KeepAlive, p) }})
+		scs = append(scs, explore.Scenario{Name: sc.name(), Run: func(p []int) explore.ExecResult { return runC33(t, sc, sc.ka, p) }})
 	}
 	if explore.IsWorker() {
 		explore.ServeScenarios(scs)
@@ -241,7 +249,7 @@ func TestC33(t *testing.T) {
 	rep := explore.NewReport("C33", "model_checking")
 	// differential baseline: without the keep-alive loop every action succeeds against a prompt gateway
 	for _, sc := range c33scenarios() {
-		if sc.action == "none" || sc.at != 500*time.Millisecond {
+		if sc.action == "none" || sc.at != 500*time.Millisecond || sc.ka != c33KeepAlive {
 			continue
 		}
 		r := runC33(t, sc, 0, nil)
@@ -251,7 +259,7 @@ func TestC33(t *testing.T) {
 	}
 	explore.RunScenarios(rep, scs, explore.ScenarioOpts{Test: "TestC33", QuickBound: 2, ThoroughFrom: 2, ThoroughMax: 4,
 		QuickBudget: 150 * time.Second, ThoroughBudge: 12 * time.Minute})
-	rep.Coverage["rule"] = "KeepAlive 4 s, RetryDelay 1 s, RetryCount 2; after Connect one API action (Sleep 3 s / Sleep 6 s / Disconnect / Publish q1 / Ping / none) at t = 0.5 .. 9.5 s; the gateway answers each keep-alive PINGREQ at once / 1 s late / 2 s late / never and a DISCONNECT(d) at once / 1 s late; all combinations of these answers, of thread interleavings (API thread, receive loop, keep-alive loop, timer goroutines), of orders of timers due at the same instant and of ready select cases within the deviation bound, run to a 20 s horizon. Checked: no PINGREQ without client id is written while the client state is asleep or disconnected; while active PINGREQs are at most KeepAlive apart (when every ping is answered); with every ping answered the API call returns nil as it does without the keep-alive loop"
+	rep.Coverage["rule"] = "KeepAlive 4 s and 2 s (a tick can come due while the previous ping is in flight), RetryDelay 1 s, RetryCount 2; after Connect one API action (Sleep 3 s / Sleep 6 s / Disconnect / Publish q1 / Ping / none) at t = 0.5 .. 9.5 s (0.5 .. 5.5 s for KeepAlive 2 s); the gateway answers each keep-alive PINGREQ at once / 1 s late / 2 s late / never and a DISCONNECT(d) at once / 1 s late; all combinations of these answers, of thread interleavings (API thread, receive loop, keep-alive loop, timer goroutines), of orders of timers due at the same instant and of ready select cases within the deviation bound, run to a 20 s horizon. Checked: no PINGREQ without client id is written while the client state is asleep or disconnected; while active PINGREQs are at most KeepAlive apart (when every ping is answered); with every ping answered the API call returns nil as it does without the keep-alive loop"
 	rep.Assumptions = []string{"virtual time; timers on whole seconds, actions on half seconds", "client state sampled at every scheduling step", "keep-alive PINGREQ = PINGREQ without client id"}
 	rep.Finish()
 }
